@@ -108,7 +108,11 @@ Inductive cb_result :=
 | CbPage (status : N)                       (* ErrorPage: no session cookie, CSRF cookie untouched *)
 | CbOk (sess : session) (location : str).   (* SaveSession(sess), ClearCSRF, http.Redirect(location, 302) *)
 
-Definition oauth_callback (canon : bool) (key : N) (r : cb_req) : cb_result :=
+(* [strict]: does the callback refuse a state record whose SessionID is empty?  false on the
+   unchanged tree (there is no such test); true after the three-line repair proposed for finding
+   C06-K2 (docs/notes/C06.md), inserted between the unsealing of the state and GetCSRF.  The driver
+   probes the real callback once per run and passes what it finds, as for [canon]. *)
+Definition oauth_callback (canon strict : bool) (key : N) (r : cb_req) : cb_result :=
   if negb (cb_form_ok r) then CbPage 500                                   (* :401-406 *)
   else if negb (nil_str (cb_error r)) then CbPage 403                      (* :407-413 *)
   else match redeem_code (cb_code r) (cb_redeem r) with                    (* :416-424 *)
@@ -117,6 +121,7 @@ Definition oauth_callback (canon : bool) (key : N) (r : cb_req) : cb_result :=
     match unmarshal_state canon key (cb_state r) with                      (* :426-436 *)
     | None => CbPage 500
     | Some st =>
+      if strict && N.eqb (f_sid st) 0 then CbPage 400 else                 (* proposed guard; absent today *)
       match cb_cookie r with                                               (* :438-444 *)
       | None => CbPage 400
       | Some cw =>
@@ -145,7 +150,7 @@ Inductive event :=
 | EResave (s : session)          (* any other SaveSession of the proxy (Authenticate after refresh/validate) *)
 | ECallback (r : cb_req).        (* any request to /oauth2/callback *)
 
-Definition step (canon : bool) (key : N) (w : world) (e : event) : world * option cb_result :=
+Definition step (canon strict : bool) (key : N) (w : world) (e : event) : world * option cb_result :=
   match e with
   | EStart u =>
       let n := w_ctr w in
@@ -156,7 +161,7 @@ Definition step (canon : bool) (key : N) (w : world) (e : event) : world * optio
       let n := w_ctr w in
       ({| w_ctr := n + 1; w_flows := w_flows w; w_issued := Seal key (n + 1) (PSession s) :: w_issued w |}, None)
   | ECallback r =>
-      let res := oauth_callback canon key r in
+      let res := oauth_callback canon strict key r in
       match res with
       | CbOk s _ =>
           let n := w_ctr w in
@@ -166,10 +171,10 @@ Definition step (canon : bool) (key : N) (w : world) (e : event) : world * optio
       end
   end.
 
-Fixpoint run (canon : bool) (key : N) (w : world) (evs : list event) : world :=
+Fixpoint run (canon strict : bool) (key : N) (w : world) (evs : list event) : world :=
   match evs with
   | [] => w
-  | e :: evs' => run canon key (fst (step canon key w e)) evs'
+  | e :: evs' => run canon strict key (fst (step canon strict key w e)) evs'
   end.
 
 (* What a client can put on the wire (Dolev-Yao): any string; but a string that decodes to a
@@ -186,10 +191,10 @@ Definition req_derivable (key : N) (issued : list sealed) (r : cb_req) : bool :=
   match cb_cookie r with Some cw => wire_derivable key issued cw | None => true end.
 
 (* a history in which every callback request is derivable from what was issued before it *)
-Fixpoint admissible (canon : bool) (key : N) (w : world) (evs : list event) : bool :=
+Fixpoint admissible (canon strict : bool) (key : N) (w : world) (evs : list event) : bool :=
   match evs with
   | [] => true
   | e :: evs' =>
       (match e with ECallback r => req_derivable key (w_issued w) r | _ => true end) &&
-      admissible canon key (fst (step canon key w e)) evs'
+      admissible canon strict key (fst (step canon strict key w e)) evs'
   end.
